@@ -447,6 +447,10 @@ def finish(pid, tier, seed, level, viols, inconclusive, coverage, assumptions, t
 
 
 def generic_coverage(agg, rule, extra=None, max_samples=10):
+    if not agg["samples"]:
+        # never leave the evidence without concrete cases: fall back to a listing of observed cells
+        agg["samples"] = [{"cell": k, "evaluations_in_cell": v} for k, v in list(sorted(agg["cells"].items()))[:max_samples]]
+    # take samples round-robin over the jobs that produced them rather than the first job's only
     cov = {
         "evaluations": int(agg["evaluations"]),
         "distinct_nontrivial": len(agg["cells"]),
